@@ -173,7 +173,7 @@ SCfg(dummy) ==
 Shape(k) ==       \* bodies of the grouping g1
   CASE k = 1 -> << Stmt("container", "k1", << LeafD("x", "dv"), Uses("", "g2") >>) >>
     [] k = 2 -> << Stmt("list", "k1", << Stmt("key", "x", <<>>), Leaf("x"), Stmt("min-elements", 1, <<>>), Uses("", "g2") >>),
-                   Stmt("leaf-list", "ll", << Stmt("type", "string", <<>>), Stmt("default", "a", <<>>), Stmt("default", "b", <<>>) >>) >>
+                   Stmt("leaf-list", "ll", << Stmt("type", "string", <<>>), Stmt("default", "a", <<>>), Stmt("default", "b", <<>>), Stmt("default", "c", <<>>) >>) >>
     [] k = 3 -> << Stmt("container", "k1", << Cfg("false"), Stmt("choice", "ch", << Stmt("case", "ca", << Leaf("x") >>), Leaf("sh") >>) >>),
                    Uses("", "g2") >>
     [] k = 4 -> << Stmt("container", "k1", << Leaf("x"), Stmt("grouping", "g2", << Leaf("inner2") >>), Uses("", "g2") >>) >>
@@ -216,7 +216,7 @@ UsesProg(k, def, s1, s2, mut) ==
       uBody == (IF def = "u" THEN << G1(k) >> ELSE <<>>)
                \o (IF def = "wrap" THEN << Stmt("grouping", "g1", << Uses("d", "g1"), Leaf("wy") >>) >> ELSE <<>>) \o uOwn \o << UseSite(s1, ref) >> \o (IF s2 # s1 THEN << UseSite(s2, ref) >> ELSE <<>>)
       \* when g1 lives in module dd (prefix dd), module d (prefix d, imported first) holds a decoy of the same name
-      dBody == DefD \o (IF def \in {"d", "wrap"} THEN << G1(k) >> ELSE <<>>)
+      dBody == DefD \o (IF def \in {"d", "wrap", "perfile"} THEN << G1(k) >> ELSE <<>>)
                     \o (IF def = "dd" THEN << Stmt("grouping", "g1", << Leaf("decoy") >>) >> ELSE <<>>)
       target == SitePath(s1) \o << Q("u", "k1") >>
       wBody == CASE mut = "none" -> <<>>
@@ -227,21 +227,28 @@ UsesProg(k, def, s1, s2, mut) ==
                  [] mut = "inaction" -> << Aug(target \o << Q("u", "act"), Q("u", "input") >>, << Leaf("grafted") >>) >>
                  [] mut = "mandatory" -> << Stmt("deviation", target \o << Q("u", "x") >>, << Stmt("deviate", "add", << Stmt("mandatory", "true", <<>>) >>) >>) >>
                  [] mut = "inext" -> << Aug(target \o << Q("u", "ext") >>, << Leaf("grafted") >>) >>
+                 \* a default added to the leaf-list of BOTH instances: each copy keeps its own list
+                 [] mut = "lldefs" -> << Stmt("deviation", SitePath(s1) \o << Q("u", "ll") >>, << Stmt("deviate", "add", << Stmt("default", "x1", <<>>) >>) >>),
+                                         Stmt("deviation", SitePath(s2) \o << Q("u", "ll") >>, << Stmt("deviate", "add", << Stmt("default", "x2", <<>>) >>) >>) >>
                  [] mut = "llbounds" -> << Stmt("deviation", target \o << Q("u", "bl") >>,
                                                 << Stmt("deviate", "replace", << Stmt("min-elements", 2, <<>>), Stmt("max-elements", 4, <<>>) >>) >>) >>
-      u == Mod("u", IF def = "dd" THEN [x \in {"d", "dd"} |-> x] ELSE ImpD, IF def = "us" THEN <<"us">> ELSE <<>>, uBody)
+      u == Mod("u", IF def = "dd" THEN [x \in {"d", "dd"} |-> x] ELSE ImpD, IF def \in {"us", "perfile"} THEN <<"us">> ELSE <<>>, uBody)
       d == Mod("d", NoImp, IF def = "ds" THEN <<"ds">> ELSE <<>>, dBody)
       w == Mod("w", ImpU, <<>>, wBody)
   IN Prog(("u" :> u) @@ ("d" :> d) @@ ("w" :> w)
           @@ (IF def = "us" THEN ("us" :> Sub("us", "u", ImpD, <<>>, << G1(k) >>)) ELSE << >>)
+          \* def = "perfile": a prefix belongs to the file that declares it.  u says d:g1 and means module d; its submodule us
+          \* calls its OWN module "d" (belongs-to u { prefix d; }) and has a grouping g1 of its own, which u's text does not mean
+          @@ (IF def = "perfile" THEN ("us" :> [Sub("us", "u", NoImp, <<>>, << Stmt("grouping", "g1", << Leaf("decoy") >>) >>) EXCEPT !.pfx = "d"]) ELSE << >>)
           @@ (IF def = "dd" THEN ("dd" :> Mod("dd", NoImp, <<>>, << TddOf("dd"), Stmt("identity", "local", <<>>), Stmt("grouping", "g2", << Leaf("dd2") >>), G1(k) >>)) ELSE << >>)
           @@ (IF def = "ds" THEN ("ds" :> Sub("ds", "d", NoImp, <<>>, << G1(k), Stmt("grouping", "g2", << Leaf("ds2") >>) >>)) ELSE << >>))
 MutOK(k, mut) == /\ mut \in {"inext", "mandatory"} => k = 6
                  /\ mut = "llbounds" => k = 7
+                 /\ mut = "lldefs" => k = 2
                  /\ mut = "inaction" => k = 5
                  /\ mut = "maxelem" => k \in {1, 2}
-Muts == {"none", "augment", "notsupp", "config", "maxelem", "inaction", "inext", "llbounds", "mandatory"}
-Defs == {"d", "ds", "u", "dd", "wrap"}
+Muts == {"none", "augment", "notsupp", "config", "maxelem", "inaction", "inext", "llbounds", "mandatory", "lldefs"}
+Defs == {"d", "ds", "u", "dd", "wrap", "perfile"}
 SUses(dummy) ==
   { UsesProg(k[1], def, s1, s2, k[2]) : k \in {x \in (1..8) \X Muts : MutOK(x[1], x[2])}, def \in Defs, s1 \in Sites, s2 \in Sites }
 SUsesQuick(dummy) ==
